@@ -176,6 +176,10 @@ def generate(seed, tier):
         name = "f%d%s%s" % (j, EXT[src_fmt], ".gz" if gz else "")
         if dirmode and j == 1 and rng.random() < 0.3:
             name = "." + name                     # a dot file is a file like any other
+        if dirmode and j == 0 and not gz and rng.random() < 0.15:
+            # a file called like a directory of the working directory (the commands run in
+            # /sim/w, which holds the source directory): names are relative to the source
+            name = dname
         files.append({"path": ("/sim/w/%s/" % dname if dirmode else "/sim/w/") + name, "tb": tb,
                       "codec": codec, "fmt": src_fmt, "layout": rng.randrange(1 << 30),
                       "enc": encs[0], "gz": gz, "kw": kw})
